@@ -75,11 +75,33 @@ func keyString(k interface{}) string {
 	return fmt.Sprintf("%v", k)
 }
 
-func typeKey(t reflect.Type) (s string) {
+func typeKey(t reflect.Type) string { return typeKeyD(t, 0) }
+
+// typeKeyD: a printable form that separates distinct types which print identically
+// (same-named types of different packages or functions, and pointers / slices /
+// maps / structs built from them), so that ties - which would fall back to Go's
+// random map order - do not occur in practice.
+func typeKeyD(t reflect.Type, depth int) (s string) {
 	defer func() {
 		if recover() != nil {
 			s = t.String()
 		}
 	}()
-	return t.String() + "#" + strconv.Itoa(int(t.Size())) + "#" + t.PkgPath() + "#" + fmt.Sprintf("%+v", reflect.Zero(t))
+	s = t.String() + "#" + strconv.Itoa(int(t.Size())) + "#" + t.PkgPath()
+	if depth > 3 {
+		return s
+	}
+	switch t.Kind() {
+	case reflect.Ptr, reflect.Slice, reflect.Array, reflect.Chan:
+		return s + "#(" + typeKeyD(t.Elem(), depth+1) + ")"
+	case reflect.Map:
+		return s + "#(" + typeKeyD(t.Key(), depth+1) + ":" + typeKeyD(t.Elem(), depth+1) + ")"
+	case reflect.Struct:
+		for i := 0; i < t.NumField(); i++ {
+			f := t.Field(i)
+			s += "#" + f.Name + "`" + string(f.Tag) + "`(" + typeKeyD(f.Type, depth+1) + ")"
+		}
+		return s
+	}
+	return s + "#" + fmt.Sprintf("%+v", reflect.Zero(t))
 }
